@@ -47,8 +47,8 @@ class MetaString(type):
 
     def _inspect_args(cls, string_or_int):
         if cls._size is None:
-            if isinstance(string_or_int, int):
-                return Info(size=string_or_int + 8)
+            if is_integer(string_or_int):
+                return Info(size=int(string_or_int) + 8)
             elif isinstance(string_or_int, str):
                 data = bytes(string_or_int, "utf8")
                 size = _to_slot_size(len(data) + 1 + 8)
